@@ -842,6 +842,7 @@ func (rl *Shell) viDownCase() {
 	case rl.Keymap.IsPending():
 		// In vi operator pending mode, it's that we've been called
 		// twice in a row (eg. `uu`), so modify the entire current line.
+		rl.Keymap.CancelPending()
 		rl.History.Save()
 
 		rl.selection.Mark(rl.cursor.Pos())
@@ -869,6 +870,7 @@ func (rl *Shell) viUpCase() {
 	case rl.Keymap.IsPending():
 		// In vi operator pending mode, it's that we've been called
 		// twice in a row (eg. `uu`), so modify the entire current line.
+		rl.Keymap.CancelPending()
 		rl.History.Save()
 
 		rl.selection.Mark(rl.cursor.Pos())
